@@ -133,6 +133,33 @@ def generate(rng, tier):
             n += 1
             lines = gen.prelude(SCHEMA, 0) + ['parse_buf 0 ' + hx(first), 'errfunc 0 1', 'parse_buf 0 ' + hx(bad + b'\n')]
             yield Scn('ef%d' % n, lines, {'class': 'errfunc-replaced', 'expect': 'alt', 'noise': 1, 'err': bad, 'impl_only': True})
+    # a callback that refuses reports through cfg_error(cfg, ...) with the context it was handed (the documented idiom):
+    # the diagnostic names the line on which the token that triggered the call ends.  (library only: `cberror`)
+    CBS = [Opt('int', b'pi', 0, 1, cbs=('parse:0',)), Opt('int', b'vi', 0, 1, cbs=('valid:0',)), Opt('intl', b'vl', 0, b'{1}', cbs=('valid:0',)),
+           Opt('str', b'ps', 0, b'd', cbs=('parse:1',)), Opt('func', b'fn', func='user:0'), Opt('int', b'i', 0, 1),
+           Opt('sec', b'sec', 0, None, [Opt('int', b'a', 0, 1), Opt('str', b's', 0, b'')], cbs=('valid:1',)),
+           Opt('sec', b't', F['MULTI'] | F['TITLE'], None, [Opt('int', b'a', 0, 1), Opt('sec', b'in', 0, None, [Opt('int', b'z', 0, 1)], cbs=('valid:2',))],
+               cbs=('valid:1',))]
+    # (text, line offset of the end of the triggering token[, which invocation refuses]): the validator of a list runs after
+    # every value and once more at the closing brace
+    CBTEXTS = [(b'pi = 5', 0), (b'pi =\n\n 5', 2), (b'vi = 5', 0), (b'vi\n=\n5', 2), (b'vl = {1,\n2,\n3\n}', 3, 4), (b'vl = {1,\n2,\n3\n}', 1, 2), (b'vl = {\n\n1, 2}', 2), (b'vl += {4,\n5}', 1, 2), (b'vl += {4,\n5\n}', 2, 3),
+               (b'ps = "a\nb\nc"', 2), (b"ps = 'a\\\nb'", 1), (b'fn(a,\n b\n)', 2), (b'fn()', 0),
+               (b'sec {\n a = 2\n\n}', 3), (b'sec { }', 0), (b'sec {\n # c\n /* d\n e */\n}', 4), (b'sec {\n s = "x\ny"\n }', 3),
+               (b't "x" {\n a = 1\n}', 2), (b't "x" {\n in {\n z = 1\n\n }\n a = 2\n}', 4), (b't\n"y"\n{\n}', 3)]
+    for pre in prefixes[:12]:
+        pre = [(t, c) for t, c in pre if not (t.startswith(b's =') or t.startswith(b'il') or t.startswith(b'kv') or t.startswith(b'sec'))]
+        for text, off, *at in CBTEXTS:
+            n += 1
+            body = b''.join(t for t, _ in pre) + text + b'\ni = 2\n'
+            line = 1 + sum(c for _, c in pre) + off
+            yield Scn('cb%d' % n, gen.prelude(CBS, 0) + ['cberror 1', 'failat %d' % (at[0] if at else 1), 'parse_buf 0 ' + hx(body)],
+                      {'class': 'callback-refuses', 'expect': (b'[buf]', line), 'noise': 1, 'err': text, 'impl_only': True})
+    # accepted texts with annotation support on: comments of every form (also empty ones) directly before every item form
+    for cm in (b'#\n', b'//\n', b'/**/', b'/* */', b'####\n', b'# c\n', b'/* a\nb */'):
+        for it in (b'i = 1', b'il = {1, 2}', b'il += 3', b'il = 4', b's = "v"', b'sec { a = 2 }', b'sec {\n' + cm + b' a = 3\n}', b't "x" { a = 1 }', b'b = on'):
+            n += 1
+            yield Scn('okc%d' % n, gen.prelude(SCHEMA, F['COMMENTS']) + ['parse_buf 0 ' + hx(cm + b' ' + it + b'\n' + cm + b'i = 5\n')],
+                      {'class': 'accepted/annotations', 'expect': None, 'noise': 1})
     # accepted texts: no diagnostic at all
     for i in range(30 if tier == 'quick' else 400):
         text = b''.join(r.pick(NOISE)[0] for _ in range(1 + r.below(6))) + gen.rand_text(r, SCHEMA[:8], comments=True)
@@ -165,6 +192,9 @@ def oracle(scn, il):
     if exp is None:
         if rc == '0' and diags:
             return [('diagnostic-on-accept', '%s: accepted text delivered %s' % (scn.id, diags))]
+        if rc != '0' and scn.meta['class'] == 'accepted/annotations':
+            return [('valid-text-rejected' + ('-silently' if not diags else ''), '%s: a valid text is rejected (rc=%s, diagnostics %s): %s' % (
+                scn.id, rc, diags, scn.lines[-1][:120]))]
         return []
     out = []
     if rc != '1':
